@@ -190,6 +190,72 @@ def _fold(op, a, b):
     raise KeyError(op)
 
 
+def linear(t, depth=0):
+    """(coefficients {atom term: int}, constant) of a term that is linear over its non-linear atoms"""
+    if isinstance(t, bool):
+        return {}, int(t)
+    if isinstance(t, int):
+        return {}, t
+    op = t[0]
+    if depth < 40:
+        if op in ("add", "sub"):
+            ca, ka = linear(t[1], depth + 1)
+            cb, kb = linear(t[2], depth + 1)
+            sgn = 1 if op == "add" else -1
+            out = dict(ca)
+            for k, v in cb.items():
+                nv = out.get(k, 0) + sgn * v
+                if nv:
+                    out[k] = nv
+                else:
+                    out.pop(k, None)
+            return out, ka + sgn * kb
+        if op == "mul":
+            for x, y in ((t[1], t[2]), (t[2], t[1])):
+                if isinstance(x, int) and not isinstance(x, bool):
+                    cy, ky = linear(y, depth + 1)
+                    if x == 0:
+                        return {}, 0
+                    return dict((k, v * x) for k, v in cy.items()), ky * x
+        if op == "shl" and isinstance(t[2], int) and not isinstance(t[2], bool) and 0 <= t[2] <= 4096:
+            cy, ky = linear(t[1], depth + 1)
+            f = 1 << t[2]
+            return dict((k, v * f) for k, v in cy.items()), ky * f
+    return {t: 1}, 0
+
+
+def from_linear(coefs, const):
+    r = const
+    for atom, k in coefs.items():
+        term = wrap(atom) if k == 1 else mk_int("mul", k, wrap(atom))
+        r = term if (isinstance(r, int) and r == 0) else mk_int("add", r, term)
+    return r
+
+
+def _reduce_divmod(op, ta, m):
+    """(k*m*x + rest) // m and % m with a positive constant m: drop / factor the divisible part"""
+    coefs, c = linear(ta)
+    div = dict((a, k) for a, k in coefs.items() if k % m == 0)
+    if not div and not (c >= m or c < 0):
+        return None
+    rest = dict((a, k) for a, k in coefs.items() if k % m != 0)
+    if op == "mod":
+        if not rest:
+            return c % m
+        if not div and 0 <= c < m:
+            return None
+        inner = from_linear(rest, c % m)
+        return SymInt(("mod", _t(inner), m)) if isinstance(inner, SymInt) else inner % m
+    # floordiv
+    q = from_linear(dict((a, k // m) for a, k in div.items()), c // m if not rest else 0)
+    if not rest:
+        return q
+    if not div:
+        return None
+    inner = from_linear(rest, c)
+    return mk_int("add", q, SymInt(("floordiv", _t(inner), m)) if isinstance(inner, SymInt) else inner // m)
+
+
 def mk_int(op, a, b):
     if isinstance(a, SymBool) or isinstance(a, bool):
         a = b2i(a)
@@ -205,6 +271,11 @@ def mk_int(op, a, b):
     elif op == "sub":
         if tb == 0 and isinstance(tb, int): return wrap(ta)
         if ta == tb: return 0
+        if not isinstance(ta, int) and not isinstance(tb, int) and (ta[0] in ("add", "sub") or tb[0] in ("add", "sub")):
+            ca, ka = linear(ta)
+            cb, kb = linear(tb)
+            if any(k in ca for k in cb):
+                return from_linear(linear(("sub", ta, tb))[0], ka - kb)
     elif op == "mul":
         if isinstance(ta, int):
             if ta == 0: return 0
@@ -223,6 +294,10 @@ def mk_int(op, a, b):
         if isinstance(ta, int) and ta == 0: return 0
     elif op == "floordiv":
         if isinstance(tb, int) and tb == 1: return wrap(ta)
+    if op in ("floordiv", "mod") and isinstance(tb, int) and tb > 1 and not isinstance(ta, int):
+        r = _reduce_divmod(op, ta, tb)
+        if r is not None:
+            return r
     return SymInt((op, ta, tb))
 
 
@@ -511,19 +586,20 @@ def _bounds(t, memo):
             return (-(1 << n), (1 << n) - 1)
         return (None, None)
     if op == "shl":
+        if bl is not None and bl < 0:
+            bl = 0      # shift counts are non-negative on every path that builds the term
         if bl is not None and bl >= 0 and bh is not None and bh <= 4096 and al is not None and ah is not None:
             c = [al << bl, al << bh, ah << bl, ah << bh]
             return (min(c), max(c))
         return (None, None)
     if op == "shr":
-        if bl is not None and bl >= 0 and al is not None and ah is not None:
-            sh = bh if bh is not None and bh <= 4096 else None
-            c = [al >> bl, ah >> bl]
-            if sh is not None:
-                c += [al >> sh, ah >> sh]
-            else:
-                c += [0 if al >= 0 else -1, 0 if ah >= 0 else -1]
-            return (min(c), max(c))
+        # shift counts are non-negative (the interpreter forks the ValueError path): x >> s lies between x and 0 / -1
+        if al is not None and ah is not None:
+            lo = 0 if al >= 0 else al
+            hi = ah if ah >= 0 else -1
+            if bl is not None and bl > 0:
+                lo, hi = (lo >> bl), (hi >> bl if hi >= 0 else -1)
+            return (lo, hi)
         return (None, None)
     if op == "pow":
         return (None, None)
